@@ -308,7 +308,7 @@ def oracle(run: runner.Run, oc: Outcome) -> None:
                 view = snaps.get((uid, s.rv))
                 if view is None:
                     continue
-                if s.reason == 'update' and closing is not None and \
+                if s.reason == 'update' and closing is not None and (s.calls or s.writes) and \
                         common.essence_eq(common.ref_essence(closing), common.ref_essence(view)):
                     oc.add('C16/isolation', 'replicaset-handled-for-the-deployments-records',
                            f"the ReplicaSet {uid}@{s.rv} was classified as an update although nothing essential differs from "
